@@ -8,6 +8,7 @@ implementation's snapshots."""
 from __future__ import print_function
 
 import collections
+import io
 import json
 import random
 import re
@@ -22,7 +23,11 @@ import genhist
 WALK_SPELLING_SIG = "walk.info/files/dirs(path) report paths under the caller's spelling of the start path"
 C10_CACHED_PAGE_HIT = "cache_directory: scandir(path, page=...) answered from the cache ignores the page"
 C10_CACHED_PAGE_MISS = "cache_directory: scandir(path, page=...) on a cache miss stores the page as the whole directory"
-PENDING_FINDINGS = []      # all three were genuine defects, repaired in /repo (b3334b1, 2e1ab1a): violations again if they return
+C05_ALIAS_WORKERS = ("OSFS copy_dir/move_dir(workers>0) onto another name of the source (hard-link snapshot, symlinked "
+                     "directory): the worker threads truncate the shared files")
+C05_ALIAS_MOVE_LINK = "OSFS move of a symbolic link onto the file it points to: the file's name is left as a dangling link"
+PENDING_FINDINGS = [C05_ALIAS_WORKERS, C05_ALIAS_MOVE_LINK]
+# (the three C10/C11 signatures above were genuine defects, repaired in /repo (b3334b1, 2e1ab1a): violations again if they return)
 
 _MT = re.compile(r"@(N|Si-?\d+)")
 _MTI = re.compile(r"\|(N|Si-?\d+)\)")
@@ -69,15 +74,19 @@ def _listing_key(item):
 Step = collections.namedtuple("Step", "backend hist_id index op pre outcome post")
 
 
-def run_histories(backend_cls, histories, hist_ids=None):
+def run_histories(backend_cls, histories, hist_ids=None, execute=None):
+    """execute: optional replacement of fsops.execute, called as execute(fs, op, hist_index, step_index)."""
     steps = []
     for hi, h in enumerate(histories):
         b = backend_cls()
         try:
             fs = b.make()
             pre = b.snapshot()
+            tick = getattr(b, "tick", None)
             for k, o in enumerate(h):
-                out = fsops.execute(fs, o)
+                if tick is not None:      # compositions that grow while they are in use (members added between calls)
+                    tick(k)
+                out = fsops.execute(fs, o) if execute is None else execute(fs, o, hi, k)
                 try:
                     post = b.snapshot()
                 except Exception as e:  # snapshot failure is itself an observation
@@ -202,6 +211,385 @@ def signature_c01(step, ref):
                                      rres.split(":")[0] + (":" + rres[5:] if rres.startswith("fail:") else ""))
 
 
+# ---- C01: the calls that take or fill a STREAM (upload / writefile / download / open().read in pieces).  Their
+# reference semantics is that of writebytes / readbytes with "everything the stream delivers until it reports its end";
+# a stream reports its end by an EMPTY read only (raw streams, pipes, sockets may return fewer bytes than asked for).
+
+class Trickle(io.RawIOBase):
+    """Raw readable stream handing out at most `step` bytes per read (socket / HTTP body / any io.RawIOBase)."""
+
+    def __init__(self, data, step):
+        io.RawIOBase.__init__(self)
+        self._data, self._pos, self._step = data, 0, step
+
+    def readable(self):
+        return True
+
+    def readinto(self, buf):
+        n = min(len(buf), self._step, len(self._data) - self._pos)
+        buf[:n] = self._data[self._pos:self._pos + n]
+        self._pos += n
+        return n
+
+
+class ShortReader(object):
+    """The minimal file-like source (only read(n)); works for bytes and text: at most `step` items per call, an empty
+    result only at the end."""
+
+    def __init__(self, data, step):
+        self._data, self._pos, self._step = data, 0, step
+
+    def read(self, n=-1):
+        k = self._step if n is None or n < 0 else min(n, self._step)
+        out = self._data[self._pos:self._pos + k]
+        self._pos += len(out)
+        return out
+
+
+class BurstPipe(object):
+    """The read end of a real OS pipe whose writer sends the data in bursts: read(n) is os.read(), which returns what
+    is in the pipe at that moment (fewer than n bytes while more is still to come), b'' after the writer closed."""
+
+    def __init__(self, data, burst):
+        import os
+        self._r, self._w = os.pipe()
+        self._pending = [data[i:i + burst] for i in range(0, len(data), burst)]
+        self._inflight = 0
+
+    def read(self, n=-1):
+        import os
+        if n is None or n < 0:
+            n = 1 << 16
+        if self._inflight == 0 and self._w is not None:
+            if self._pending:
+                b = self._pending.pop(0)
+                os.write(self._w, b)
+                self._inflight = len(b)
+            if not self._pending:
+                os.close(self._w)
+                self._w = None
+        chunk = os.read(self._r, n)
+        self._inflight -= len(chunk)
+        return chunk
+
+    def close(self):
+        import os
+        for fd in (self._r, self._w):
+            if fd is not None:
+                try:
+                    os.close(fd)
+                except OSError:
+                    pass
+        self._r = self._w = None
+
+
+class Recorder(object):
+    """The minimal file-like target (only write())."""
+
+    def __init__(self):
+        self.parts = []
+
+    def write(self, b):
+        self.parts.append(bytes(b))
+
+    def getvalue(self):
+        return b"".join(self.parts)
+
+
+SRC_KINDS = ["bytesio", "buffered", "trickle", "short", "pipe"]
+
+
+def make_source(kind, data, step):
+    if kind == "bytesio":
+        return io.BytesIO(data)
+    if kind == "buffered":
+        return io.BufferedReader(Trickle(data, step))
+    if kind == "trickle":
+        return Trickle(data, step)
+    if kind == "short":
+        return ShortReader(data, step)
+    if kind == "pipe":
+        return BurstPipe(data, step)
+    if kind == "stringio":
+        return io.StringIO(data)
+    if kind == "textshort":
+        return ShortReader(data, step)
+    raise ValueError(kind)
+
+
+def stream_variant(vseed, hi, k, op):
+    """The way call k of history hi is issued: deterministic in (vseed, hi, k)."""
+    r = random.Random(vseed * 1000003 + hi * 1009 + k)
+    if op[0] == "writebytes":
+        how = r.choice(["upload", "upload", "writefile", "writefile_text"])
+        if how == "writefile_text":
+            return (how, r.choice(["stringio", "textshort"]), r.choice([1, 2, 3, 7]), None)
+        return (how, r.choice(SRC_KINDS), r.choice([1, 2, 3, 4, 7]),
+                r.choice([None, None, 1, 2, 3, 4, 5, 16]) if how == "upload" else None)
+    if op[0] == "readbytes":
+        how = r.choice(["download", "download", "open_pieces", "openbin_pieces"])
+        return (how, r.choice(["bytesio", "recorder"]), r.choice([1, 2, 3, 7]), r.choice([None, 1, 2, 3, 4, 16]))
+    return None
+
+
+def exec_stream(fs, op, variant):
+    """fsops.execute with writebytes / readbytes issued through the stream-taking methods."""
+    import signal
+    if variant is None:
+        return fsops.execute(fs, op)
+    how, kind, step, chunk = variant
+    old = signal.signal(signal.SIGALRM, fsops._alarm)
+    signal.alarm(5)
+    src = None
+    try:
+        try:
+            if how == "upload":
+                src = make_source(kind, op[2], step)
+                fs.upload(op[1], src, chunk_size=chunk) if chunk is not None else fs.upload(op[1], src)
+                return "ok:U"
+            if how == "writefile":
+                src = make_source(kind, op[2], step)
+                fs.writefile(op[1], src)
+                return "ok:U"
+            if how == "writefile_text":     # latin-1 maps every byte to one character and back
+                src = make_source(kind, op[2].decode("latin-1"), step)
+                fs.writefile(op[1], src, encoding="latin-1")
+                return "ok:U"
+            if how == "download":
+                tgt = io.BytesIO() if kind == "bytesio" else Recorder()
+                fs.download(op[1], tgt, chunk_size=chunk) if chunk is not None else fs.download(op[1], tgt)
+                return "ok:" + common.r_bytes(tgt.getvalue())
+            if how in ("open_pieces", "openbin_pieces"):
+                f = fs.open(op[1], "rb") if how == "open_pieces" else fs.openbin(op[1], "r")
+                try:
+                    parts = []
+                    while True:
+                        c = f.read(step)
+                        if not c:
+                            break
+                        parts.append(c)
+                finally:
+                    f.close()
+                return "ok:" + common.r_bytes(b"".join(parts))
+            raise ValueError(how)
+        except fsops.Timeout:
+            return "crash:NonTermination"
+        except Exception as e:  # noqa
+            return common.exc_name(e)
+    finally:
+        signal.alarm(0)
+        signal.signal(signal.SIGALRM, old)
+        if src is not None and hasattr(src, "close"):
+            try:
+                src.close()
+            except Exception:
+                pass
+
+
+BULK = bytes(bytearray(range(256))) * 41      # 10496 bytes: not a multiple of the chunk sizes used
+BULK2 = bytes(bytearray(range(256))) * 32     # 8192 bytes: an exact multiple of 4096
+
+
+def stream_bulk_cases(thorough):
+    """(how, kind, step, chunk, data): larger data against the default and explicit chunk sizes."""
+    out = []
+    for data in (BULK, BULK2):
+        for kind, step in (("bytesio", 0), ("buffered", 7), ("trickle", 7), ("trickle", 1000), ("trickle", 4096),
+                           ("short", 100), ("short", 5000), ("pipe", 3000), ("pipe", 4096)):
+            for chunk in ((None, 4096, 1000, 1 << 16) if thorough else (None, 4096)):
+                out.append(("upload", kind, step, chunk, data))
+            out.append(("writefile", kind, step, None, data))
+        for kind, step in (("stringio", 0), ("textshort", 100)):
+            out.append(("writefile_text", kind, step, None, data))
+        for chunk in (None, 4096, 1000):
+            out.append(("download", "bytesio", 0, chunk, data))
+            out.append(("download", "recorder", 0, chunk, data))
+        out.append(("open_pieces", "-", 1000, None, data))
+    return out
+
+
+def run_stream_block(report, backs, thorough):
+    """C01 over the stream-taking calls; returns (coverage dict, divergences [(step, ref, okr, okt, variant)])."""
+    import time
+    t0 = time.time()
+    bias = dict(writebytes=40, readbytes=25, makedir=8, copy=3, move=3, remove=3, getinfo=1, getsize=2)
+    vseed = report.seed + 131
+    hs = gen_histories(report.seed + 131, 400 if thorough else 36, 10 if thorough else 7, bias=bias)
+    n_steps = n_stream = 0
+    div = []
+    kinds = collections.Counter()
+    bulk_bad = []
+    n_bulk = 0
+    for bc in backs:
+        def ex(fs, o, hi, k):
+            return exec_stream(fs, o, stream_variant(vseed, hi, k, o))
+        steps = run_histories(bc, hs, execute=ex)
+        refs = ref_steps(steps)
+        for s, r in zip(steps, refs):
+            n_steps += 1
+            v = stream_variant(vseed, s.hist_id, s.index, s.op)
+            if v is not None:
+                n_stream += 1
+                kinds["%s/%s" % (v[0], v[1])] += 1
+            okr, okt = agrees2(s, r)
+            if not (okr and okt):
+                div.append((s, r, okr, okt, v))
+        # larger data, oracle = the data itself
+        b = bc()
+        try:
+            fs = b.make()
+            for i, (how, kind, step, chunk, data) in enumerate(stream_bulk_cases(thorough)):
+                n_bulk += 1
+                p = "bulk%d" % (i % 3)
+                if how in ("download", "open_pieces"):
+                    fs.writebytes(p, data)
+                    out = exec_stream(fs, ("readbytes", p), (how, kind, step, chunk))
+                    ok = out == "ok:" + common.r_bytes(data)
+                else:
+                    out = exec_stream(fs, ("writebytes", p, data), (how, kind, step, chunk))
+                    got = fs.readbytes(p) if out == "ok:U" else None
+                    ok = got == data
+                    if not ok:
+                        out += " stored %s of %d bytes" % (None if got is None else len(got), len(data))
+                if not ok:
+                    bulk_bad.append(dict(backend=bc.name, how=how, stream=kind, step=step, chunk_size=chunk,
+                                         size=len(data), outcome=out[:80]))
+        finally:
+            b.close()
+    cov = dict(rule="histories whose writebytes / readbytes calls are issued as upload / writefile (binary and text) / "
+                    "download / open().read(k) with sources and targets of several kinds (BytesIO, BufferedReader, raw "
+                    "stream handing out <= k bytes per read, minimal read()-only object, OS pipe fed in bursts, StringIO, "
+                    "text stream with short reads; BytesIO and write()-only targets) x chunk sizes, on every backend, "
+                    "compared with the reference for writebytes / readbytes; plus larger data (8192 and 10496 bytes) "
+                    "against default and explicit chunk sizes with the data as oracle",
+               steps=n_steps, stream_calls=n_stream, by_kind=dict(kinds), bulk_cases=n_bulk,
+               divergences=len(div), bulk_failures=len(bulk_bad), wall_s=round(time.time() - t0, 2))
+    return cov, div, bulk_bad, vseed, hs
+
+
+# ---- C01: MultiFS over members that hold content of their own, added before / after first use.  The documented search
+# order (descending priority, then most recently added first) names, for every path, the member that answers: the
+# queries through the MultiFS must give what that member - a MemoryFS, tied to the model - gives.
+
+LAYER_QUERIES = ("exists", "isdir", "isfile", "getinfo", "readbytes", "getsize", "gettype")
+
+
+def layer_case(seed, ci, verbose=False):
+    """One generated case; returns (number of comparisons, list of disagreements)."""
+    from fs.multifs import MultiFS
+    from fs.memoryfs import MemoryFS
+    rnd = random.Random(seed * 7919 + ci)
+    h = genhist.Gen(rnd, odd=0.0, spell=0.0).history(rnd.randint(2, 7))
+    wprio = rnd.choice([10, 10, 3, 0])
+    plan = [("w", MemoryFS(), wprio, True, [])]
+    for i in range(rnd.randint(1, 3)):
+        g = genhist.Gen(rnd, odd=0.0, spell=0.0)
+        lower = MemoryFS()
+        ops = []
+        for _ in range(rnd.randint(1, 5)):
+            o = g.setup_op()
+            fsops.execute(g.shadow, o)
+            fsops.execute(lower, o)
+            ops.append(o)
+        plan.append(("l%d" % i, lower, rnd.choice([0, 0, 0, -2, 5, wprio]), False, ops))
+    rnd.shuffle(plan)
+    when = sorted(rnd.choice([-1, -1, 0, 1, 2, 4]) for _ in plan)      # added before call number `when` (-1: before first use)
+    m = MultiFS()
+    empty = MemoryFS()
+    added = []
+    log = []
+    bad = []
+    n = [0]
+
+    def add(k):
+        name, member, prio, write, ops = plan[k]
+        log.append(["add_fs", name, dict(priority=prio, write=write, content=[op_json(o) for o in ops])])
+        if prio == 0:
+            m.add_fs(name, member, write=write)
+        else:
+            m.add_fs(name, member, write=write, priority=prio)
+        added.append((prio, len(added), name, member))
+
+    def compare():
+        if not added:
+            return
+        order = sorted(added, key=lambda t: (t[0], t[1]), reverse=True)
+        paths = {"/", "/nope"}
+        for _p, _i, _n, member in added:
+            paths.update(p for p, _info in member.walk.info())
+        for p in sorted(paths):
+            owner = next(((nm, member) for _pr, _ix, nm, member in order if member.exists(p)), (None, empty))
+            for q in LAYER_QUERIES:
+                n[0] += 1
+                exp = strip_times(fsops.execute(owner[1], (q, p)))
+                got = strip_times(fsops.execute(m, (q, p)))
+                if exp != got:
+                    bad.append(dict(query=q, path=p, documented_owner=owner[0], owner_answers=exp, multifs_answers=got,
+                                    search_order=[t[2] for t in order], log=list(log)))
+                    return
+            n[0] += 1
+            w = m.which(p)[0]
+            if w != owner[0]:
+                bad.append(dict(query="which", path=p, documented_owner=owner[0], owner_answers=owner[0],
+                                multifs_answers=w, search_order=[t[2] for t in order], log=list(log)))
+                return
+            kinds = [(member.isdir(p), member.isfile(p)) for _pr, _ix, _nm, member in order]
+            if owner[0] is not None and owner[1].isdir(p) and not any(f for _d, f in kinds):
+                names = set()
+                for _pr, _ix, _nm, member in order:
+                    if member.isdir(p):
+                        names.update(member.listdir(p))
+                n[0] += 1
+                got = fsops.execute(m, ("listdir", p))
+                exp = "ok:" + common.r_list(common.r_str, sorted(names))
+                if sort_listing(got) != sort_listing(exp):
+                    bad.append(dict(query="listdir", path=p, documented_owner=owner[0], owner_answers=exp,
+                                    multifs_answers=got, search_order=[t[2] for t in order], log=list(log)))
+                    return
+    try:
+        nxt = 0
+        while nxt < len(plan) and when[nxt] < 0:
+            add(nxt)
+            nxt += 1
+        compare()
+        for k, o in enumerate(h):
+            while nxt < len(plan) and when[nxt] <= k and not bad:
+                add(nxt)
+                nxt += 1
+                compare()
+            if bad:
+                break
+            log.append(["call", op_json(o), fsops.execute(m, o)[:40]])
+            compare()
+    finally:
+        try:
+            m.close()
+        except Exception:  # noqa
+            pass
+    return n[0], bad
+
+
+def run_layer_block(report, thorough):
+    import time
+    t0 = time.time()
+    total = 0
+    bad = []
+    cases = 400 if thorough else 40
+    for ci in range(cases):
+        n, b = layer_case(report.seed + 77, ci)
+        total += n
+        for d in b:
+            d.update(case_seed=report.seed + 77, case_index=ci)
+        bad += b
+    cov = dict(rule="MultiFS over a write layer and 1-3 MemoryFS members with content of their own (overlapping names, "
+                    "priorities default / negative / positive / equal to the write layer's), each added before the first "
+                    "use or between the calls of a random history; after every addition and call, for every path any member "
+                    "holds: exists/isdir/isfile/getinfo/readbytes/getsize/gettype/which through the MultiFS = the answer of "
+                    "the first member holding the path in the documented search order; listdir = union of the members' "
+                    "listings", cases=cases, comparisons=total, disagreements=len(bad), wall_s=round(time.time() - t0, 2))
+    return cov, bad
+
+
 def run_c01(report):
     proof = common.preflight(report)
     thorough = report.tier == "thorough"
@@ -247,7 +635,7 @@ def run_c01(report):
             fidelity_bad.append((hi, k, exp[k] if k < len(exp) else None, got[k] if k < len(got) else None))
     # 2. every backend against the reference, stepping the reference from the backend's pre-state
     per_backend = {}
-    for bc in backs:
+    for bc in list(backs) + B.GROWING:       # + compositions whose members are added while they are in use
         use = regress + (hs if bc in (B.Mem, B.OS, B.SubMem, B.Wrap) or thorough else hs[: max(60, n_hist // 6)])
         steps = mem_steps if bc is B.Mem else run_histories(bc, use)
         refs = ref_steps(steps)
@@ -284,6 +672,51 @@ def run_c01(report):
                                   call=op_json(s.op), tree_before=s.pre, implementation=s.outcome,
                                   tree_after=s.post, reference=r, result_agrees=okr, tree_agrees=okt,
                                   theorem="Props/C01.v"))
+    # 2b. the stream-taking calls (upload / writefile / download / piecewise reads) on every backend
+    st_cov, st_div, st_bulk, st_vseed, st_hs = run_stream_block(report, backs, thorough)
+    for s, r, okr, okt, v in st_div:
+        sig = signature_c01(s, r) + (" [as %s]" % v[0] if v else " [stream history]")
+        known = report.known_match(sig)
+        if known:
+            report.known_finding(known, example=op_json(s.op))
+            continue
+        if sig in seen_sig or sig in PENDING_FINDINGS:
+            continue
+        seen_sig.add(sig)
+        if len(seen_sig) <= 12:
+            report.violation(dict(kind="stream-call-diverges-from-reference", backend=s.backend, signature=sig,
+                                  issued_as=list(v) if v else None, call=op_json(s.op),
+                                  history=[op_json(o) for o in st_hs[s.hist_id][:s.index + 1]], hist_index=s.hist_id,
+                                  variant_seed=st_vseed, tree_before=s.pre, implementation=s.outcome,
+                                  tree_after=s.post, reference=r, result_agrees=okr, tree_agrees=okt,
+                                  theorem="Props/C01.v"))
+    for d in st_bulk:
+        sig = "%s.%s stream=%s stores/delivers other bytes than the stream's" % (d["backend"], d["how"], d["stream"])
+        known = report.known_match(sig)
+        if known:
+            report.known_finding(known, example=d)
+            continue
+        if sig in seen_sig or sig in PENDING_FINDINGS:
+            continue
+        seen_sig.add(sig)
+        if len(seen_sig) <= 12:
+            report.violation(dict(kind="stream-bulk-data-differs", signature=sig, theorem="Props/C01.v", **d))
+    divergences = divergences + [x[:4] for x in st_div] + st_bulk
+    # 2c. MultiFS over members with content of their own, added before / after first use: the documented search order
+    ly_cov, ly_bad = run_layer_block(report, thorough)
+    for d in ly_bad:
+        sig = "MultiFS(layered, members added while in use).%s answers from another member than the documented " \
+              "search order's" % d["query"]
+        known = report.known_match(sig)
+        if known:
+            report.known_finding(known, example=d["path"])
+            continue
+        if sig in seen_sig or sig in PENDING_FINDINGS:
+            continue
+        seen_sig.add(sig)
+        if len(seen_sig) <= 12:
+            report.violation(dict(kind="multifs-layer-order", signature=sig, theorem="Props/C01.v", **d))
+    divergences = divergences + ly_bad
     if fidelity_bad or vm_mism:
         if not divergences:
             hi, k, e, g = fidelity_bad[0] if fidelity_bad else (None, None, None, None)
@@ -301,6 +734,9 @@ def run_c01(report):
                disagreements_checked=len(divergences), model_fidelity_mismatches=len(fidelity_bad),
                vm_compute_crosschecked=n_vm, per_backend=per_backend,
                distribution={"%s/%s" % k: v for k, v in sorted(dist.items())})
+    cov["stream_calls"] = st_cov
+    cov["multifs_layers_added_while_in_use"] = ly_cov
+    cov["growing_compositions"] = [bc.name for bc in B.GROWING]
     # 3. the OSFS model over the POSIX kernel model (FS/Osfs.v, proved to refine the reference in FS/OsfsProofs.v)
     #    must match the real OSFS step by step; its recorded kernel table is re-checked on the live kernel
     import h_osfs
@@ -342,7 +778,35 @@ def replay(report, path):
         for sx, r in zip(d["spellings"], outs):
             print("replay", bc.name, q[0], repr(sx), "->", r)
         return 1 if len(set(outs)) > 1 else 0
-    if d.get("history"):
+    if d.get("kind") == "multifs-layer-order":
+        n, bad = layer_case(d["case_seed"], d["case_index"])
+        for x in bad:
+            print("replay MultiFS", x["log"], "\n  ", x["query"], x["path"], "documented owner", x["documented_owner"],
+                  "answers", x["owner_answers"], "| MultiFS answers", x["multifs_answers"])
+        print("replay: %d comparisons, %d disagreements" % (n, len(bad)))
+        return 1 if bad else 0
+    if d.get("kind") == "stream-bulk-data-differs":
+        b = bc()
+        try:
+            fsx = b.make()
+            data = BULK if d["size"] == len(BULK) else BULK2
+            var = (d["how"], d["stream"], d["step"], d["chunk_size"])
+            if d["how"] in ("download", "open_pieces"):
+                fsx.writebytes("bulk", data)
+                out = exec_stream(fsx, ("readbytes", "bulk"), var)
+                ok = out == "ok:" + common.r_bytes(data)
+            else:
+                out = exec_stream(fsx, ("writebytes", "bulk", data), var)
+                ok = out == "ok:U" and fsx.readbytes("bulk") == data
+            print("replay", bc.name, var, "->", out[:60], "| all %d bytes arrived:" % len(data), ok)
+        finally:
+            b.close()
+        return 0 if ok else 1
+    if d.get("kind") == "stream-call-diverges-from-reference":
+        h = [op_from_json(o) for o in d["history"]]
+        steps = run_histories(bc, [h], execute=lambda fsx, o, _hi, k: exec_stream(
+            fsx, o, stream_variant(d["variant_seed"], d["hist_index"], k, o)))
+    elif d.get("history"):
         h = [op_from_json(o) for o in d["history"]]
         steps = run_histories(bc, [h])
     else:
@@ -427,11 +891,13 @@ def cross_cases(rnd, n):
     return out
 
 
-def run_cross(case, kinds):
-    """Execute one cross-filesystem transfer; returns a Step over the combined tree."""
+def run_cross(case, kinds, workers=0, flip_pt=False):
+    """Execute one cross-filesystem transfer; returns a Step over the combined tree.  workers > 0: the directory
+    functions copy with that many real threads (outcome class and `preserved` do not depend on the schedule)."""
     import fs.move
     import fs.copy
     hs, hd, fn, (sp, dp), pt = case
+    pt = (not pt) if flip_pt else pt
     sb = kinds[0]()
     db = kinds[1]()
     try:
@@ -444,10 +910,10 @@ def run_cross(case, kinds):
         pre = combined_snapshot(sb, db)
         call = {"move_file": lambda: fs.move.move_file(sfs, sp, dfs, dp, preserve_time=pt),
                 "copy_file": lambda: fs.copy.copy_file(sfs, sp, dfs, dp, preserve_time=pt),
-                "move_dir": lambda: fs.move.move_dir(sfs, sp, dfs, dp, preserve_time=pt),
-                "copy_dir": lambda: fs.copy.copy_dir(sfs, sp, dfs, dp, preserve_time=pt),
-                "move_fs": lambda: fs.move.move_fs(sfs, dfs, preserve_time=pt),
-                "copy_fs": lambda: fs.copy.copy_fs(sfs, dfs, preserve_time=pt)}[fn]
+                "move_dir": lambda: fs.move.move_dir(sfs, sp, dfs, dp, workers=workers, preserve_time=pt),
+                "copy_dir": lambda: fs.copy.copy_dir(sfs, sp, dfs, dp, workers=workers, preserve_time=pt),
+                "move_fs": lambda: fs.move.move_fs(sfs, dfs, workers=workers, preserve_time=pt),
+                "copy_fs": lambda: fs.copy.copy_fs(sfs, dfs, workers=workers, preserve_time=pt)}[fn]
         import signal
         old = signal.signal(signal.SIGALRM, fsops._alarm)
         signal.alarm(5)
@@ -470,7 +936,7 @@ def run_cross(case, kinds):
     op = {"move_file": ("move", S, D, True, pt), "copy_file": ("copy", S, D, True, pt),
           "move_dir": ("movedir", S, D, True, pt), "copy_dir": ("copydir", S, D, True, pt),
           "move_fs": ("movedir", "S", "D", True, pt), "copy_fs": ("copydir", "S", "D", True, pt)}[fn]
-    name = "%s(%s -> %s)" % (fn, sb.name, db.name)
+    name = "%s%s(%s -> %s)" % (fn, "[workers=%d]" % workers if workers else "", sb.name, db.name)
     return Step(name, 0, 0, op, pre, out, post), (fn, sp, dp, pt)
 
 
@@ -534,7 +1000,7 @@ def view_cases(rnd, n):
     return out
 
 
-def run_view(case):
+def run_view(case, workers=0, pt=False):
     import shutil
     import tempfile
     import fs.move
@@ -558,10 +1024,10 @@ def run_view(case):
         sfs = parent if sv == "/" else parent.opendir(sv)
         dfs = second if dv == "/" else second.opendir(dv)
         pre = snap()
-        call = {"move_file": lambda: fs.move.move_file(sfs, sp, dfs, dp),
-                "copy_file": lambda: fs.copy.copy_file(sfs, sp, dfs, dp),
-                "move_dir": lambda: fs.move.move_dir(sfs, sp, dfs, dp),
-                "copy_dir": lambda: fs.copy.copy_dir(sfs, sp, dfs, dp)}[fn]
+        call = {"move_file": lambda: fs.move.move_file(sfs, sp, dfs, dp, preserve_time=pt),
+                "copy_file": lambda: fs.copy.copy_file(sfs, sp, dfs, dp, preserve_time=pt),
+                "move_dir": lambda: fs.move.move_dir(sfs, sp, dfs, dp, workers=workers, preserve_time=pt),
+                "copy_dir": lambda: fs.copy.copy_dir(sfs, sp, dfs, dp, workers=workers, preserve_time=pt)}[fn]
         import signal
         old = signal.signal(signal.SIGALRM, fsops._alarm)
         signal.alarm(5)
@@ -591,9 +1057,347 @@ def run_view(case):
             common.rm_rf(tmp)
     S = sv.rstrip("/") + "/" + sp.lstrip("/")
     D = dv.rstrip("/") + "/" + dp.lstrip("/")
-    op = {"move_file": ("move", S, D, True, False), "copy_file": ("copy", S, D, True, False),
-          "move_dir": ("movedir", S, D, True, False), "copy_dir": ("copydir", S, D, True, False)}[fn]
-    return Step("%s(view %s -> view %s of one %s)" % (fn, sv, dv, kind), 0, 0, op, pre, out, post), (fn, sp, dp, False)
+    op = {"move_file": ("move", S, D, True, pt), "copy_file": ("copy", S, D, True, pt),
+          "move_dir": ("movedir", S, D, True, pt), "copy_dir": ("copydir", S, D, True, pt)}[fn]
+    tag = "[workers=%d%s]" % (workers, ",preserve_time" if pt else "") if (workers or pt) else ""
+    return Step("%s%s(view %s -> view %s of one %s)" % (fn, tag, sv, dv, kind), 0, 0, op, pre, out, post), \
+        (fn, sp, dp, pt)
+
+
+def same_resource_loss(step):
+    """Complement of FS/Props.v `preserved` for source == destination (ONE resource named twice, same object): the
+    predicate exempts the destination files of a copydir / the source of a movedir and takes `delivered` for granted
+    when the two paths are equal, so it accepts a copy of a directory onto itself that empties every file.  The
+    property: nothing is 'overwritten by other content' here, so after a copy (returning or raising) and after a move
+    that returns, every file below the path still has its bytes.  Returns a description of the loss or None."""
+    import fs.path as P
+    o = step.op
+    if o[0] not in ("move", "copy", "movedir", "copydir") or "->" in step.backend or step.post.startswith("SNAPFAIL"):
+        return None
+    try:
+        a, b = P.abspath(P.normpath(o[1])), P.abspath(P.normpath(o[2]))
+    except Exception:  # noqa
+        return None
+    if a != b or (o[0] in ("move", "movedir") and not step.outcome.startswith("ok:")):
+        return None
+    after = dict((p2, d) for p2, k, d in fsops.tree_paths(step.post) if k == "F")
+    lost = [p2 for p2, k, d in fsops.tree_paths(step.pre)
+            if k == "F" and (p2 == a or a == "/" or p2.startswith(a.rstrip("/") + "/")) and after.get(p2) != d]
+    return ("%s of a resource onto itself %s and %d file(s) lost their bytes: %s"
+            % (o[0], "returned" if step.outcome.startswith("ok:") else "raised", len(lost), lost[:4])) if lost else None
+
+
+def same_object_cases(rnd, n):
+    """fs.copy / fs.move functions with ONE filesystem object as source and destination and a degenerate relation
+    between the two paths (equal in several spellings, destination inside / an ancestor of the source, an existing
+    sibling, a new name), single-threaded and with worker threads."""
+    out = []
+    eq_spell = [lambda p: p, lambda p: p.lstrip("/") or "/", lambda p: p.rstrip("/") + "/", lambda p: p.rstrip("/") + "/.",
+                lambda p: "./" + p.lstrip("/"), lambda p: "/" + p.strip("/").replace("/", "//")]
+    for _ in range(n):
+        g = genhist.Gen(rnd, odd=0.0, spell=0.0)
+        hist = [g.setup_op() for _ in range(rnd.randint(3, 9))]
+        for o in hist:
+            fsops.execute(g.shadow, o)
+        files, dirs = g.existing()
+        d0 = rnd.choice(dirs).rstrip("/")        # some directory holds files at two depths
+        hist += [("writebytes", d0 + "/a.b", b"one"), ("makedirs", d0 + "/ab/c", True),
+                 ("writebytes", d0 + "/ab/c/a", b"two"), ("writebytes", d0 + "/ab/b", b"")]
+        for o in hist[-4:]:
+            fsops.execute(g.shadow, o)
+        files, dirs = g.existing()
+        kind = rnd.choice(["mem", "os", "submem", "subos"])
+        view = rnd.choice(dirs) if kind.startswith("sub") else "/"
+        if kind.startswith("sub") and view == "/":
+            kind = kind[3:]
+        inside = lambda cands: ["/" + c[len(view.rstrip("/")):].lstrip("/") for c in cands
+                                if c == view or c.startswith(view.rstrip("/") + "/")]
+        vdirs, vfiles = inside(dirs), inside(files)
+        fn = rnd.choice(["copy_dir", "move_dir", "copy_dir", "move_dir", "copy_fs", "move_fs", "copy_file", "move_file"])
+        rel = rnd.choice(["equal", "equal", "equal", "inside", "ancestor", "sibling", "new"])
+        if fn in ("copy_fs", "move_fs"):
+            sp = dp = "/"
+        elif fn in ("copy_dir", "move_dir"):
+            nonroot = [d for d in vdirs if d != "/"]
+            sp = rnd.choice(nonroot) if nonroot and rnd.random() < 0.8 else rnd.choice(vdirs)
+            sub = [d for d in vdirs if d != sp and d.startswith(sp.rstrip("/") + "/")]
+            dp = {"equal": rnd.choice(eq_spell)(sp),
+                  "inside": rnd.choice(sub) if sub and rnd.random() < 0.5 else sp.rstrip("/") + "/new",
+                  "ancestor": (sp.rsplit("/", 1)[0] or "/") if rnd.random() < 0.7 else "/",
+                  "sibling": rnd.choice(vdirs), "new": rnd.choice(vdirs).rstrip("/") + "/new"}[rel]
+        else:
+            if not vfiles:
+                continue
+            sp = rnd.choice(vfiles)
+            dp = {"equal": rnd.choice(eq_spell)(sp), "inside": sp + "/new", "ancestor": sp.rsplit("/", 1)[0] or "/",
+                  "sibling": rnd.choice(vfiles), "new": rnd.choice(vdirs).rstrip("/") + "/new"}[rel]
+        out.append((hist, kind, view, fn, sp, dp, rel, rnd.choice([0, 1, 4]), rnd.random() < 0.4))
+    return out
+
+
+def _guarded(call):
+    import signal
+    old = signal.signal(signal.SIGALRM, fsops._alarm)
+    signal.alarm(5)
+    try:
+        try:
+            call()
+            return "ok:U"
+        except fsops.Timeout:
+            return "crash:NonTermination"
+        except Exception as e:  # noqa
+            return common.exc_name(e)
+    finally:
+        signal.alarm(0)
+        signal.signal(signal.SIGALRM, old)
+
+
+def run_same(case):
+    import tempfile
+    import fs.move
+    import fs.copy
+    import fs.path as P
+    from fs.memoryfs import MemoryFS
+    from fs.osfs import OSFS
+    hist, kind, view, fn, sp, dp, rel, workers, pt = case
+    tmp = None
+    if kind.endswith("mem"):
+        parent = MemoryFS()
+        snap = lambda: fsops.snap_memoryfs(parent)
+    else:
+        tmp = tempfile.mkdtemp(prefix="pyfs2verif_")
+        parent = OSFS(tmp)
+        snap = lambda: B.snap_os(tmp)
+    try:
+        for o in hist:
+            fsops.execute(parent, o)
+        one = parent if view == "/" else parent.opendir(view)
+        pre = snap()
+        call = {"move_file": lambda: fs.move.move_file(one, sp, one, dp, preserve_time=pt),
+                "copy_file": lambda: fs.copy.copy_file(one, sp, one, dp, preserve_time=pt),
+                "move_dir": lambda: fs.move.move_dir(one, sp, one, dp, workers=workers, preserve_time=pt),
+                "copy_dir": lambda: fs.copy.copy_dir(one, sp, one, dp, workers=workers, preserve_time=pt),
+                "move_fs": lambda: fs.move.move_fs(one, one, workers=workers, preserve_time=pt),
+                "copy_fs": lambda: fs.copy.copy_fs(one, one, workers=workers, preserve_time=pt)}[fn]
+        out = _guarded(call)
+        try:
+            post = snap()
+        except RecursionError:
+            post = "SNAPFAIL:RecursionError (tree nested beyond the interpreter's recursion limit)"
+    finally:
+        try:
+            parent.close()
+        except Exception:  # noqa
+            pass
+        if tmp:
+            common.rm_rf(tmp)
+    try:
+        S = P.join(view, P.relpath(P.normpath(sp)))
+        D = P.join(view, P.relpath(P.normpath(dp)))
+    except Exception:  # noqa
+        S, D = view.rstrip("/") + "/" + sp.lstrip("/"), view.rstrip("/") + "/" + dp.lstrip("/")
+    op = {"move_file": ("move", S, D, True, pt), "copy_file": ("copy", S, D, True, pt),
+          "move_dir": ("movedir", S, D, True, pt), "copy_dir": ("copydir", S, D, True, pt),
+          "move_fs": ("movedir", S, D, True, pt), "copy_fs": ("copydir", S, D, True, pt)}[fn]
+    name = "%s[workers=%d%s](one %s object%s, destination %s)" % (
+        fn, workers, ",preserve_time" if pt else "", kind, " on " + view if view != "/" else "", rel)
+    return Step(name, 0, 0, op, pre, out, post), (fn, sp, dp, pt)
+
+
+# ---- C05 on OSFS: two NAMES for one file.  A hard link (a `cp -al` snapshot directory), a symbolic link to a file, a
+# symbolic link to a directory (used as destination directory, as another name of the source directory, inside a
+# directory that is moved / copied / removed).  The predicate over trees cannot express shared storage, so the oracle
+# works on (name -> inode, bytes) tables taken through os.*.
+
+ALIAS_FILES = [("data/report.txt", b"quarterly report\n" * 30), ("data/raw/values.bin", bytes(bytearray(range(256))) * 3),
+               ("data/raw/notes.txt", b"some notes"), ("data/zero", b""), ("other/keep.txt", b"keep me"),
+               ("holder/plain.txt", b"plain file"), ("holder/deep/x.txt", b"deep x")]
+
+
+def build_alias_tree(d):
+    import os
+    root, outside = os.path.join(d, "root"), os.path.join(d, "outside")
+    for rel, data in ALIAS_FILES:
+        p = os.path.join(root, rel)
+        if not os.path.isdir(os.path.dirname(p)):
+            os.makedirs(os.path.dirname(p))
+        with open(p, "wb") as fh:
+            fh.write(data)
+        if rel.startswith("data/"):                     # snap/ = hard-link snapshot of data/
+            q = os.path.join(root, "snap", rel[5:])
+            if not os.path.isdir(os.path.dirname(q)):
+                os.makedirs(os.path.dirname(q))
+            os.link(p, q)
+    os.makedirs(outside)
+    with open(os.path.join(outside, "canary.txt"), "wb") as fh:
+        fh.write(b"outside canary")
+    os.symlink("report.txt", os.path.join(root, "data", "latest.txt"))       # symlink to a file, same directory
+    os.symlink("other", os.path.join(root, "dlink"))                         # symlink to a directory
+    os.symlink("data", os.path.join(root, "dself"))                          # a second name of the directory data/
+    os.symlink(outside, os.path.join(root, "olink"))                         # symlink to a directory outside the root
+    os.symlink("../other", os.path.join(root, "holder", "inner"))            # directory symlink inside a directory
+    os.symlink("../data/report.txt", os.path.join(root, "holder", "flink"))  # file symlink inside a directory
+    return root, outside
+
+
+def alias_table(root, outside):
+    """name -> ('F', inode, bytes) | ('L', target) for directory symlinks | ('?',) broken; directories are implied."""
+    import os
+    out = {}
+    for base, label in ((root, ""), (outside, "<outside>/")):
+        for dirpath, dirnames, filenames in os.walk(base):
+            rel = os.path.relpath(dirpath, base)
+            rel = "" if rel == "." else rel + "/"
+            for n in dirnames:
+                p = os.path.join(dirpath, n)
+                if os.path.islink(p):
+                    out[label + rel + n] = ("L", os.readlink(p))
+            for n in filenames:
+                p = os.path.join(dirpath, n)
+                try:
+                    st = os.stat(p)
+                    with open(p, "rb") as fh:      # 'f': the name is a symbolic link to the file
+                        out[label + rel + n] = ("f" if os.path.islink(p) else "F", (st.st_dev, st.st_ino), fh.read())
+                except OSError:
+                    out[label + rel + n] = ("?",)
+    return out
+
+
+def alias_calls(thorough):
+    """(label, kind, src, dst, runner(fs, root)) for every move / copy / removetree entry point."""
+    import fs.copy
+    import fs.move
+    from fs.osfs import OSFS
+    calls = []
+    fpairs = [("data/report.txt", "snap/report.txt"), ("snap/raw/notes.txt", "data/raw/notes.txt"),
+              ("data/report.txt", "data/latest.txt"), ("data/latest.txt", "data/report.txt"),
+              ("data/report.txt", "dself/report.txt"), ("dself/raw/values.bin", "snap/raw/values.bin"),
+              ("data/raw/notes.txt", "snap/report.txt"), ("other/keep.txt", "data/latest.txt"),
+              ("holder/flink", "snap/report.txt"), ("data/zero", "snap/zero")]
+    for s, d in fpairs:
+        for ow in (True, False):
+            for pt in ((False, True) if thorough or ow else (False,)):
+                kw = dict(overwrite=ow, preserve_time=pt)
+                tag = "overwrite=%s,preserve_time=%s" % (ow, pt)
+                calls.append(("FS.copy(%s)" % tag, "copy", s, d, lambda f, r, s=s, d=d, kw=kw: f.copy(s, d, **kw)))
+                calls.append(("FS.move(%s)" % tag, "move", s, d, lambda f, r, s=s, d=d, kw=kw: f.move(s, d, **kw)))
+        for pt in (False, True):
+            calls.append(("copy_file(preserve_time=%s)" % pt, "copy", s, d,
+                          lambda f, r, s=s, d=d, pt=pt: fs.copy.copy_file(f, s, f, d, preserve_time=pt)))
+            calls.append(("move_file(preserve_time=%s)" % pt, "move", s, d,
+                          lambda f, r, s=s, d=d, pt=pt: fs.move.move_file(f, s, f, d, preserve_time=pt)))
+
+        def two(f, r, s=s, d=d, mv=False):
+            with OSFS(r) as g:
+                (fs.move.move_file if mv else fs.copy.copy_file)(f, s, g, d)
+        calls.append(("copy_file(two OSFS objects on the root)", "copy", s, d, two))
+        calls.append(("move_file(two OSFS objects on the root)", "move", s, d,
+                      lambda f, r, two=two: two(f, r, mv=True)))
+        top = s.split("/")[0]
+        if d.startswith(top + "/"):            # both names inside one directory: through a SubFS
+            s2, d2 = s[len(top) + 1:], d[len(top) + 1:]
+            calls.append(("SubFS.copy(overwrite=True)", "copy", s, d,
+                          lambda f, r, top=top, s2=s2, d2=d2: f.opendir(top).copy(s2, d2, overwrite=True)))
+            calls.append(("SubFS.move(overwrite=True)", "move", s, d,
+                          lambda f, r, top=top, s2=s2, d2=d2: f.opendir(top).move(s2, d2, overwrite=True)))
+    dpairs = [("data", "snap"), ("snap", "data"), ("data", "dself"), ("data", "dlink"), ("data", "olink"),
+              ("data/raw", "snap/raw"), ("data/raw", "dself/raw"), ("holder", "snap"), ("holder", "newdir"),
+              ("other", "dlink"), ("data", "holder/inner")]
+    for s, d in dpairs:
+        for pt in (False, True):
+            calls.append(("FS.copydir(create=True,preserve_time=%s)" % pt, "copydir", s, d,
+                          lambda f, r, s=s, d=d, pt=pt: f.copydir(s, d, create=True, preserve_time=pt)))
+            calls.append(("FS.movedir(create=True,preserve_time=%s)" % pt, "movedir", s, d,
+                          lambda f, r, s=s, d=d, pt=pt: f.movedir(s, d, create=True, preserve_time=pt)))
+        for w in (0, 2):
+            calls.append(("copy_dir(workers=%d)" % w, "copydir", s, d,
+                          lambda f, r, s=s, d=d, w=w: fs.copy.copy_dir(f, s, f, d, workers=w)))
+            calls.append(("move_dir(workers=%d)" % w, "movedir", s, d,
+                          lambda f, r, s=s, d=d, w=w: fs.move.move_dir(f, s, f, d, workers=w)))
+    for p in ("holder", "snap", "dlink", "data", "olink", "dself", "holder/inner", "/"):
+        calls.append(("FS.removetree", "removetree", p, None, lambda f, r, p=p: f.removetree(p)))
+    return calls
+
+
+def run_alias_family(thorough):
+    """Returns (number of calls, list of dict(label, kind, src, dst, outcome, lost=[...], symlink_target=bool))."""
+    import os
+    import tempfile
+    from fs.osfs import OSFS
+    results = []
+    n = 0
+    for label, kind, src, dst, runner in alias_calls(thorough):
+        d = tempfile.mkdtemp(prefix="pyfs2verif_")
+        try:
+            root, outside = build_alias_tree(d)
+            pre = alias_table(root, outside)
+            under = lambda name, top: not name.startswith("<outside>/") and (
+                top == "/" or name == top or name.startswith(top.rstrip("/") + "/"))
+            # what the call names explicitly
+            if kind in ("copy", "move"):
+                src_files = [("", pre[src][2])] if pre.get(src, ("?",))[0] in "Ff" else []
+            elif kind in ("copydir", "movedir"):
+                src_files = [(nm[len(src):], v[2]) for nm, v in pre.items() if v[0] in "Ff" and under(nm, src) and nm != src]
+            else:
+                src_files = []
+            dest_inodes = set()
+            for rel, _data in src_files:
+                try:
+                    st = os.stat(os.path.join(root, dst + rel))
+                    dest_inodes.add((st.st_dev, st.st_ino))
+                except OSError:
+                    pass
+            src_by_inode = {}
+            for rel, data in src_files:
+                try:
+                    st = os.stat(os.path.join(root, dst + rel))
+                    src_by_inode[(st.st_dev, st.st_ino)] = data
+                except OSError:
+                    pass
+            with OSFS(root) as fsx:
+                out = _guarded(lambda: runner(fsx, root))
+            post = alias_table(root, outside)
+            n += 1
+            lost = []
+            for nm, v in sorted(pre.items()):
+                if v[0] != "F":
+                    continue
+                if kind in ("move", "movedir") and under(nm, src):
+                    continue                    # the moved source
+                if kind == "removetree" and under(nm, src):
+                    continue                    # the contents of the directory explicitly removed
+                if v[1] in dest_inodes and src_by_inode.get(v[1]) != v[2]:
+                    continue                    # a destination file explicitly overwritten (with other content)
+                w = post.get(nm)            # (a name that was a link to a file is not itself a file: not judged)
+                if w is None or w[0] not in "Ff" or w[2] != v[2]:
+                    lost.append(nm)
+            # moved / copied content is at the source or at the destination, whatever the outcome
+            undelivered = []
+            for rel, data in src_files:
+                here = [post.get(src + rel)]
+                try:
+                    with open(os.path.join(root, dst + rel), "rb") as fh:
+                        here.append(("F", None, fh.read()))
+                except OSError:
+                    pass
+                if not any(x is not None and x[0] in "Ff" and x[2] == data for x in here):
+                    undelivered.append(src + rel)
+            if lost or undelivered or out.startswith("crash:NonTermination"):
+                # the known removetree defect (the walk follows directory symlinks), also as the second phase of a movedir
+                has_dir_link = any(v[0] == "L" and under(nm, src) for nm, v in pre.items())
+                sym = bool(lost) and not undelivered and all(not under(nm, src) for nm in lost) and (
+                    kind == "removetree" or (kind == "movedir" and has_dir_link and not any(
+                        under(nm, dst) for nm in lost)))
+                results.append(dict(call=label, kind=kind, src=src, dst=dst, outcome=out, files_that_lost_their_bytes=lost,
+                                    source_is_link=pre.get(src, ("?",))[0] == "f",
+                                    source_content_neither_at_source_nor_destination=undelivered,
+                                    removetree_through_symlink=sym))
+        finally:
+            import shutil
+            shutil.rmtree(d, ignore_errors=True)
+            if os.path.exists(d):
+                common.rm_rf(d)
+    return n, results
 
 
 def symlink_scenarios():
@@ -656,10 +1460,37 @@ def run_c05(report):
         st, meta = run_cross(c, pairs[i % len(pairs)])
         cross_meta[len(steps)] = (c, meta)
         steps.append(st)
-    for c in view_cases(rnd, 1200 if thorough else 220):
+    vcases = view_cases(rnd, 1200 if thorough else 220)
+    for c in vcases:
         st, meta = run_view(c)
         cross_meta[len(steps)] = (c, meta)
         steps.append(st)
+    # the same cross / view families with worker threads (1 and 4; the file functions take none) and preserve_time
+    # toggled, and the degenerate relations on ONE filesystem object with 0 / 1 / 4 workers
+    n_before_workers = len(steps)
+    dirfn = ("move_dir", "copy_dir", "move_fs", "copy_fs")
+    for i, c in enumerate(cases):
+        if c[2] in dirfn and (thorough or i % 2 == 0):
+            for w in ((1, 4) if thorough else ((1, 4)[(i // 2) % 2],)):
+                st, meta = run_cross(c, pairs[i % len(pairs)], workers=w, flip_pt=(i % 3 == 0))
+                cross_meta[len(steps)] = (c, meta + (w,))
+                steps.append(st)
+    for i, c in enumerate(vcases):
+        isdirfn = c[4] in dirfn
+        if not thorough and i % 2 and not isdirfn:
+            continue
+        for w in ((1, 4) if thorough and isdirfn else ((1, 4)[i % 2] if isdirfn else 0,)):
+            st, meta = run_view(c, workers=w, pt=(i % 3 != 0))
+            cross_meta[len(steps)] = (c, meta + (w,))
+            steps.append(st)
+    rnd_same = random.Random(report.seed + 507)
+    n_same = 0
+    for c in same_object_cases(rnd_same, 1500 if thorough else 200):
+        st, meta = run_same(c)
+        cross_meta[len(steps)] = (c, meta)
+        steps.append(st)
+        n_same += 1
+    n_worker_steps = len(steps) - n_before_workers - n_same
     verdicts = common.run_model_parallel(preserved_lines(steps), chunk=3000)
     n_vm, vm_mism = common.vm_crosscheck(preserved_lines(steps[:300]), verdicts[:300], "C05", limit=60)
     # model side: the MemoryFS model satisfies the predicate on the same histories
@@ -673,6 +1504,9 @@ def run_c05(report):
         dist[(s.op[0], "ok" if s.outcome.startswith("ok") else s.outcome)] += 1
         if s.pre != s.post and not s.post.startswith("SNAPFAIL"):
             nontrivial.add((s.op[0], fsops.canon_tree(s.pre), fsops.canon_tree(s.post)))
+        loss = same_resource_loss(s)
+        if loss:
+            v = "T but: " + loss if v == "T" else v
         if v != "T" or s.outcome.startswith("crash:") or s.post.startswith("SNAPFAIL"):
             bad.append((i, s, v))
     seen = set()
@@ -703,6 +1537,34 @@ def run_c05(report):
                 report.known_finding(known)
             else:
                 report.violation(dict(kind="symlink-target-emptied", **r))
+    # OSFS: two names for one file (hard links, symbolic links to files and to directories)
+    n_alias, alias_bad = run_alias_family(thorough)
+    alias_pending = collections.Counter()
+    for r in alias_bad:
+        cls = re.sub(r"\(.*", "", r["call"])
+        if r["removetree_through_symlink"]:
+            sig = "OSFS.removetree symlink-target-emptied"
+        elif r["kind"] == "move" and r["source_is_link"]:
+            sig = C05_ALIAS_MOVE_LINK
+        elif "two OSFS objects" in r["call"]:
+            sig = "%s source and destination are the same resource (reached through two filesystem objects) [os2]" % cls
+        elif "workers=" in r["call"] and "workers=0" not in r["call"]:
+            sig = C05_ALIAS_WORKERS
+        else:
+            sig = "OSFS aliased names: %s destroys data when the destination is another name of the source" % cls
+        known = report.known_match(sig)
+        if known:
+            report.known_finding(known)
+            continue
+        if sig in PENDING_FINDINGS:
+            alias_pending[sig] += 1
+            continue
+        if sig in seen or len(seen) >= 14:
+            continue
+        seen.add(sig)
+        report.violation(dict(kind="aliased-name-data-destroyed", signature=sig,
+                              tree="harness/h_fs.py build_alias_tree (data/ + hard-link snapshot snap/ + symlinks)",
+                              theorem="Props/C05.v", **r))
     if (model_bad or vm_mism) and not bad:
         report.violation(dict(kind="model-violates-predicate", what="FS/Mem.v fails `preserved` on a history",
                               history=[op_json(o) for o in (regress + hs)[model_bad[0][0]]] if model_bad else None,
@@ -716,6 +1578,9 @@ def run_c05(report):
              "with a changed tree",
         disagreements_checked=len(bad), model_predicate_failures=len(model_bad), vm_compute_crosschecked=n_vm,
         symlink_scenarios=sym, traces_validated_against_impl=len(steps) - len(bad),
+        cross_and_view_cases_rerun_with_worker_threads=n_worker_steps, same_object_degenerate_cases=n_same,
+        osfs_aliased_name_calls=n_alias, osfs_aliased_name_failures=len(alias_bad),
+        pending_findings_seen=dict(alias_pending),
         distribution={"%s/%s" % k: v for k, v in sorted(dist.items())}),
         ["OSFS is checked against the real kernel (no kernel model)", "5 s watchdog per call = termination"])
 
